@@ -717,3 +717,12 @@ def l7(ctx):
 
 
 RULES.append(l7)
+
+
+@rule("L8", doc="a payload the printer can print reads back: from_syntax of the payload types puts no condition on the text in front of parse() (C16.D7)", once=True)
+def l8(ctx):
+    from . import c16
+    c16.d7(ctx)
+
+
+RULES.append(l8)
